@@ -254,6 +254,21 @@ static void checkModel(verif::Run& run, const std::vector<mb::BodySpec>& specs, 
         run.residual("fwd-residual-operator", (double)(vmaxV(r) / fscale * ic), TOL, wh, rep, cls);
         M.matter.calcResidualForceIgnoringConstraints(s, f, F, udotB, r);
         run.residual("fwd-residual-realize", (double)(vmaxV(r) / fscale * ic), TOL, wh, rep, cls);
+        // the same inverse dynamics with NON-CONTIGUOUS argument layouts (rows of matrices) must give the same answer bitwise
+        if (F.size() && f.size()) {
+            Matrix_<SpatialRow> FM(3, F.size()); FM.setTo(SpatialRow(Row3(7), Row3(-7)));
+            for (int i = 0; i < F.size(); ++i) FM(1, i) = ~F[i];
+            Matrix fM(3, nu), uM(3, nu), rM(3, nu); fM.setTo(7); uM.setTo(-7); rM.setTo(11);
+            for (int i = 0; i < nu; ++i) { fM(1, i) = f[i]; uM(1, i) = udotA[i]; }
+            Vector rs(nu);
+            M.matter.calcResidualForceIgnoringConstraints(s, ~fM[1], ~FM[1], ~uM[1], rs);
+            M.matter.calcResidualForceIgnoringConstraints(s, f, F, udotA, r);
+            bool same = true; for (int i = 0; i < nu; ++i) same &= memcmp(&rs[i], &r[i], sizeof(double)) == 0;
+            run.expect(same, "inverse-dynamics-strided-arguments-differ", [&] { return "calcResidualForceIgnoringConstraints with strided f, F, udot differs from the contiguous call at " + wh(); }, rep);
+            M.matter.calcResidualForceIgnoringConstraints(s, f, F, udotA, ~rM[1]);
+            bool same2 = true; for (int i = 0; i < nu; ++i) same2 &= memcmp(&rM(1, i), &r[i], sizeof(double)) == 0 && rM(0, i) == 11 && rM(2, i) == 11;
+            run.expect(same2, "inverse-dynamics-strided-result-differs", [&] { return "calcResidualForceIgnoringConstraints with a strided result vector differs or overwrote its neighbours at " + wh(); }, rep);
+        }
         // dense equations of motion with J_ref^T F
         {
             LD e = 0;
@@ -314,7 +329,7 @@ int main(int argc, char** argv) {
     PROFILE = run.hasFlag("--profile");
     if (modelLimit >= 0 || modelStride > 1 || PROFILE) run.exhaustive = false;
     const int vs0 = (int)(((run.seed % 3) + 3) % 3);
-    mb::LevelA A; mb::LevelB B; mb::LevelC C;
+    mb::LevelA A; mb::LevelB B; mb::LevelC C; mb::LevelG G;
     auto section = [&](const std::string& name, int64_t nModels, std::vector<int> valueSets, std::function<std::vector<mb::BodySpec>(int64_t, int)> specsOf) {
         verif::Odometer od;
         od.dim("state", 4); od.dim("mass", 3); od.dim("coord", 2); od.dim("valueset", (int64_t)valueSets.size()); od.dim("model", modelLimit >= 0 ? std::min(modelLimit, nModels) : nModels);
@@ -333,6 +348,7 @@ int main(int argc, char** argv) {
     };
     auto kd = mb::kindDirs();   // section S: every variant alone on Ground (reaches the lone-particle fast path; minimal failing inputs)
     section("S", (int64_t)kd.size() * 4, th ? std::vector<int>{0, 1, 2} : std::vector<int>{vs0}, [&](int64_t i, int m) { mb::BodySpec b; b.kind = kd[i / 4].first; b.dir = kd[i / 4].second; b.frames = (int)(i % 4); b.mass = m; b.parent = -1; return std::vector<mb::BodySpec>{b}; });
+    section("G", G.size(), {vs0}, [&](int64_t i, int m) { return G.specs(i, m); });   // Ground-attached pairs (lone particle behind nq != nu mobilizers)
     section("A", A.size(), th ? std::vector<int>{0, 1, 2} : std::vector<int>{vs0}, [&](int64_t i, int m) { return A.specs(i, m); });
     if (th) {
         section("B", B.size(), {vs0}, [&](int64_t i, int m) { return B.specs(i, m); });
